@@ -5,6 +5,7 @@ From RV Require Import Base.Wire Base.Text Lang.StmtAst Lang.Transl Lang.StmtSem
   Lang.SemFacts Lang.StmtDemo.
 From RV Require Import Lang.StmtSimple.
 From RV Require Import Proofs.SkeletonP Proofs.SimTopP Proofs.SimDemoP Proofs.TranslAcceptP Proofs.SimAcceptP.
+From RV Require Import Lang.FnRet Proofs.FnRetP Lang.TupleOrder Proofs.TupleOrderP.
 Import ListNotations.
 Open Scope Z_scope.
 
@@ -203,3 +204,106 @@ Theorem C01_stmt_loop_local_reinit_refuted :
     trP <> trC /\ guard_ok looplocal = false.
 Proof. exact looplocal_refuted. Qed.
 Print Assumptions C01_stmt_loop_local_reinit_refuted.
+
+(* ================= helper functions with several return statements (Lang/FnRet.v) =================
+   The C++ return type of a helper is _merge_return_types of the labels of its return statements ([merge_ret],
+   compared with the real function on every label list of length <= 5 and with the emitted return type of every
+   generated helper).  It never narrows: it covers the label of every return statement ... *)
+Theorem C01_return_type_covers : forall ls rt,
+  merge_ret ls false = RTy rt -> forall l, In l ls -> widens l rt = true.
+Proof. exact merge_covers. Qed.
+Print Assumptions C01_return_type_covers.
+
+(* ... in particular a helper is a `bool` function only if EVERY return statement is a truth value, and one
+   numeric return statement among truth values makes it an `int` function. *)
+Theorem C01_bool_helper_only_truth_values : forall ls hv,
+  merge_ret ls hv = RTy TyBool -> forall l, In l ls -> l = TyBool.
+Proof. exact merge_bool_all_bool. Qed.
+Print Assumptions C01_bool_helper_only_truth_values.
+
+Theorem C01_number_or_truth_helper_is_int : forall ls,
+  ls <> [] -> (forall l, In l ls -> l = TyInt \/ l = TyBool) -> In TyInt ls -> merge_ret ls false = RTy TyInt.
+Proof. exact merge_int_like. Qed.
+Print Assumptions C01_number_or_truth_helper_is_int.
+
+(* A call used as a value.  For every helper body (opaque statements, `return e`, bare `return`, if/else, loops, any
+   nesting, any number of return statements), every state type and every semantics [esem]/[dosem] of its
+   expressions and statements shared by both sides: whenever the CPython run of the body ends in `return e` with
+   value v, the C++ function - whose declared type is [ret_type] of the body - runs the same statements (same
+   state, same events) and returns the same NUMBER (True = 1, 3 = 3.0; the same text for a string).  [ret_facts]:
+   the value of a return expression has the type of its label (expression layer / C02). *)
+Theorem C01_helper_call_value_preserved :
+  forall (St : Type) (esem : Z -> St -> option val) (dosem : Z -> St -> option (St * list ev)) b rt,
+    ret_type b = RTy rt -> ret_facts esem b ->
+    forall fuel st st1 evs v, pcall esem dosem fuel st b = Some (st1, evs, v) ->
+    exists v', ccall esem dosem rt fuel st b = Some (st1, evs, v') /\ same_number v' v.
+Proof. exact call_value_preserved. Qed.
+Print Assumptions C01_helper_call_value_preserved.
+
+(* ... and the same SERIAL LINE at value level (int-like values print as integers, floats as decimals) inside the
+   guard [uniform_kind]: the return statements of the helper are all int-like (int, bool), all float, or all str. *)
+Theorem C01_helper_call_serial_preserved_partial :
+  forall (St : Type) (esem : Z -> St -> option val) (dosem : Z -> St -> option (St * list ev)) b rt,
+    ret_type b = RTy rt -> ret_facts esem b -> uniform_kind (map a_ty (body_rets b)) = true ->
+    forall fuel st st1 evs v, pcall esem dosem fuel st b = Some (st1, evs, v) ->
+    exists v', ccall esem dosem rt fuel st b = Some (st1, evs, v') /\ same_serial v' v.
+Proof. exact call_serial_preserved_partial. Qed.
+Print Assumptions C01_helper_call_serial_preserved_partial.
+
+(* The hypotheses are satisfiable: `def credit(amount): if amount < 0: return False ; return amount + 10` is an int
+   function; credit(5) is 15 on both sides, credit(-3) is False in CPython and 0 on the device. *)
+Example C01_helper_call_nonvacuous :
+  ret_type credit_body = RTy TyInt /\ ret_facts credit_sem credit_body /\
+  uniform_kind (map a_ty (body_rets credit_body)) = true /\
+  pcall credit_sem no_do 5 5 credit_body = Some (5, [], VI 15) /\
+  ccall credit_sem no_do TyInt 5 5 credit_body = Some (5, [], VI 15) /\
+  pcall credit_sem no_do 5 (-3) credit_body = Some (-3, [], VB false) /\
+  ccall credit_sem no_do TyInt 5 (-3) credit_body = Some (-3, [], VI 0).
+Proof. exact credit_ok. Qed.
+Print Assumptions C01_helper_call_nonvacuous.
+
+(* The guard is necessary: `def h(a): if a > 2: return a * 0.5 ; return a` is a float function, h(1) is the int 1 in
+   CPython (serial line 1) and the float 1.0 on the device (serial line 1.00).  Finding F-C01-helper-mixed-return. *)
+Theorem C01_helper_mixed_return_refuted :
+  ret_type mixed_body = RTy TyFloat /\ ret_facts mixed_sem mixed_body /\
+  uniform_kind (map a_ty (body_rets mixed_body)) = false /\
+  pcall mixed_sem no_do 5 1 mixed_body = Some (1, [], VI 1) /\
+  ccall mixed_sem no_do TyFloat 5 1 mixed_body = Some (1, [], VF (inject_Z 1)) /\
+  ~ same_serial (VF (inject_Z 1)) (VI 1).
+Proof. exact mixed_refuted. Qed.
+Print Assumptions C01_helper_mixed_return_refuted.
+
+(* ================= tuple assignment: evaluation order of the right-hand sides (Lang/TupleOrder.v) =================
+   `t0, ..., tn = e0, ..., en` through the temporaries (at least one target declared already, or any tuple assignment
+   outside module level): the emitted statements are  temporaries ++ bindings  with one temporary per target; the
+   temporaries evaluate e0, e1, ..., en exactly once each, IN SOURCE ORDER, and the bindings evaluate no source expression
+   - so every right-hand side (helper calls with serial lines, delays, pin commands, updates of globals) is evaluated,
+   in Python's order, before the first target is written.  [eval_order]: the source expressions a node list evaluates,
+   in execution order.  Tie: IR of Lang.Transl vs IR of the real parser on generated programs; the order itself is
+   observed on the firmware by the trace oracle (tuple assignments whose first and later elements call effectful helpers). *)
+Theorem C01_tuple_rhs_evaluated_in_source_order : forall glob xs es s ns s',
+  tr_tuple glob xs es s = Some (ns, s') -> through_tmps glob xs s = true ->
+  exists tmps binds,
+    ns = tmps ++ binds /\ length tmps = length xs /\
+    eval_order tmps = map a_id (firstn (length xs) es) /\ eval_order binds = [] /\
+    eval_order ns = map a_id (firstn (length xs) es).
+Proof. exact tuple_order_tmps. Qed.
+Print Assumptions C01_tuple_rhs_evaluated_in_source_order.
+
+(* Declaration of all-new names at module level (no temporaries): the run-time right-hand sides are evaluated in source
+   order; name-free constants become static initialisers. *)
+Theorem C01_tuple_declaration_evaluated_in_source_order : forall xs es s ns s',
+  tr_tuple true xs es s = Some (ns, s') -> through_tmps true xs s = false ->
+  eval_order ns = map a_id (filter (fun e => negb (closed_const e)) (firstn (length xs) es)).
+Proof. exact tuple_order_global. Qed.
+Print Assumptions C01_tuple_declaration_evaluated_in_source_order.
+
+(* non-vacuity: a, b, c = e5, e6, e7 with a, b declared and c new inside a block: three temporaries, order 5 6 7 *)
+Example C01_tuple_order_nonvacuous :
+  let s := declare [98] (declare [97] st0) in
+  let e := fun id => {| a_id := id; a_ty := TyInt; a_const := false; a_fv := [] |} in
+  through_tmps false [[97]; [98]; [99]] s = true /\
+  exists ns s', tr_tuple false [[97]; [98]; [99]] [e 5; e 6; e 7] s = Some (ns, s') /\ eval_order ns = [5; 6; 7] /\
+                length ns = 6%nat.
+Proof. exact tuple_order_demo. Qed.
+Print Assumptions C01_tuple_order_nonvacuous.
